@@ -385,8 +385,14 @@ class Executor(Engine, ExprMixin, StmtMixin, CallMixin):
                 insts.append(same)
             for binding in (getattr(cur, 'ghost_args', None) or {}).get(c.qual, []):
                 m = dict(same)
+                env3 = dict(env2)
+                for g0 in cur.ghost:          # the caller's own ghosts and (as caller_<name>) its locals at the call site
+                    if g0 in getattr(self, 'top_env', {}) and g0 not in env3:
+                        env3[g0] = self.top_env[g0]
+                for k0, v0 in caller_vars_snapshot.items():
+                    env3.setdefault('caller_' + k0, v0)
                 for g, gexpr in binding.items():
-                    gv = self.eval_in(st, c, env2, gexpr)
+                    gv = self.eval_in(st, c, env3, gexpr)
                     m[g] = gv.t
                 insts.append(m)
         if c.assume_ensures:
@@ -788,12 +794,7 @@ class Executor(Engine, ExprMixin, StmtMixin, CallMixin):
         for b in breaks:
             b.state.vars.setdefault(ivar, V(mkI(iv), parse_spec('int')))
         self.merge_exit_states(st, breaks)
-        for i, p in enumerate(spec.get('post', [])):
-            # loop postcondition: has to hold on every way out of the loop (exhaustion and break); proved, not assumed
-            env = dict(self.top_env)
-            env.update({k: v for k, v in st.vars.items() if v is not UNBOUND})
-            wd, truth = self.eval_spec(st, p, self.cur_contract, env, self.top_pre)
-            self.oblige(st, '%s.post%d' % (name, i), And(wd, truth), 'after the loop (every exit): ' + p)
+        self.loop_post(st, spec, name)
 
     def loop_witness_terms(self, st, spec):
         """hints for the vacuity guard of a loop body (never assumptions): a region of the state space to look for a model in"""
@@ -883,6 +884,15 @@ class Executor(Engine, ExprMixin, StmtMixin, CallMixin):
         if s.orelse:
             self.exec_block(st, s.orelse)
         self.merge_exit_states(st, breaks)
+        self.loop_post(st, spec, name)
+
+    def loop_post(self, st, spec, name):
+        for i, p in enumerate(spec.get('post', [])):
+            # loop postcondition: has to hold on every way out of the loop (exhaustion and break); proved, not assumed
+            env = dict(self.top_env)
+            env.update({k: v for k, v in st.vars.items() if v is not UNBOUND})
+            wd, truth = self.eval_spec(st, p, self.cur_contract, env, self.top_pre)
+            self.oblige(st, '%s.post%d' % (name, i), And(wd, truth), 'after the loop (every exit): ' + p)
 
     # ------------------------------------------------------------------ top level
     def make_param(self, st, name, specs):
